@@ -920,7 +920,7 @@ where
     T: PartialEq,
 {
     fn eq(&self, other: &Self) -> bool {
-        self.iter().zip(other.iter()).all(|(a, b)| a == b)
+        self.iter().eq(other.iter())
     }
 }
 
